@@ -60,7 +60,9 @@ pub fn histories(p: u64, tier: Tier, heavy: bool) -> Vec<Vec<Action>> {
     }
     let stride = if heavy { 6 } else if tier == Tier::Quick { 2 } else { 1 };
     for (i, o) in ops.iter().enumerate().step_by(stride) {
-        out.push(vec![base.clone(), tx(vec![o.clone()]), Action::Reopen, tx(vec![ops[(i * 7 + 3) % ops.len()].clone(), ops[(i * 5 + 11) % ops.len()].clone()])]);
+        // (the reopen asks for another initial page count every other time: it only matters at creation)
+        let reopen = match (i / stride) % 4 { 1 => Action::ReopenNumPages(1000), 3 => Action::ReopenNumPages(40), _ => Action::Reopen };
+        out.push(vec![base.clone(), tx(vec![o.clone()]), reopen, tx(vec![ops[(i * 7 + 3) % ops.len()].clone(), ops[(i * 5 + 11) % ops.len()].clone()])]);
     }
     // shape-dependent deletions: empty the first leaves, everything, every other key
     for mask in [0b001111u32, 0b111111, 0b010101, 0b110000, 0b000011] {
@@ -246,6 +248,36 @@ pub fn worker(idx: usize) {
             }
             return json!({"odd": ps, "outcome": "works", "v": viols}).to_string();
         }
+        if let Some(ps) = j["gsweep"].as_u64() {
+            // two commits on a fresh 4-page file: the first grows it by one step, the second ends within
+            // a few pages of the (possibly partial) last page of the grown file; swept over value sizes
+            emit(&format!("gsweep {}", ps));
+            let cfg = Cfg { pagesize: ps, num_pages: 4, strict: j["strict"].as_bool().unwrap_or(false), ..Cfg::default() };
+            let l1 = 4 * ps + (8u64 << 20);
+            let total = l1 / ps;
+            let v1 = (total / 2) * ps;
+            let (lo, hi) = (j["lo"].as_u64().unwrap(), j["hi"].as_u64().unwrap());
+            let mut viols = vec![];
+            let mut nh = 0u64;
+            let mut commits = 0u64;
+            for k in lo..hi {
+                // k counts half pages from 24 pages below the boundary
+                let v2 = (total - total / 2 - 24) * ps + k * ps / 2;
+                // (two buckets: the second value must not make the first one's leaf be rewritten)
+                let h = vec![tx(vec![OpSpec::bucket("create", &[], "g"), OpSpec::put(&["g"], "first", &format!("A*{}", v1))]), tx(vec![OpSpec::bucket("create", &[], "h"), OpSpec::put(&["h"], "second", &format!("B*{}", v2))]), Action::Reopen, tx(vec![OpSpec::put(&["h"], "third", "v*8")])];
+                let _ = std::fs::write(&marker_hint(&path), format!("gsweep {} {}", ps, k));
+                let (v, c, _) = run_history(&path, &cfg, &h, &or);
+                nh += 1;
+                commits += c;
+                for (cl, d) in v {
+                    if viols.len() < 20 {
+                        viols.push(json!([cl, d, History { cfg: cfg.clone(), actions: h.clone() }.to_json()]));
+                    }
+                }
+            }
+            let _ = std::fs::remove_file(&path);
+            return json!({"histories": nh, "commits": commits, "v": viols}).to_string();
+        }
         let ci = j["cfg"].as_u64().unwrap() as usize;
         let cfg = configs()[ci].clone();
         let heavy = cfg.pagesize * cfg.num_pages as u64 >= (256 << 20);
@@ -273,6 +305,10 @@ pub fn worker(idx: usize) {
         let _ = std::fs::remove_file(&path);
         json!({"histories": nh, "commits": commits, "v": viols}).to_string()
     });
+}
+
+fn marker_hint(path: &str) -> String {
+    format!("{}.case", path)
 }
 
 pub fn odd_sizes() -> Vec<u64> {
@@ -315,6 +351,21 @@ pub fn run(check: &mut Check) {
             flb_runs += 1;
         }
     }
+    // growth boundary: page sizes that do not divide the 8 MiB growth step (the grown file ends in a
+    // partial page) and one that does
+    let mut gsweep_runs = 0u64;
+    for ps in [1032u64, 3000, 5000, 4096] {
+        for strict in [false, true] {
+            if strict && tier == Tier::Quick && ps != 3000 {
+                continue;
+            }
+            for chunk in 0..4u64 {
+                jobs.push(json!({"gsweep": ps, "strict": strict, "lo": chunk * 15, "hi": (chunk + 1) * 15}).to_string());
+                meta.push((format!("growth-boundary sweep page size {} chunk {}", ps, chunk), None));
+                gsweep_runs += 15;
+            }
+        }
+    }
     for ps in odd_sizes() {
         jobs.push(json!({"odd": ps}).to_string());
         meta.push((format!("odd {}", ps), None));
@@ -332,7 +383,7 @@ pub fn run(check: &mut Check) {
             commits += v["commits"].as_u64().unwrap_or(0);
             if let Some(ps) = v["odd"].as_u64() {
                 odd_outcomes.entry(v["outcome"].as_str().unwrap_or("?").to_string()).or_default().push(ps);
-            } else if label.ends_with("growth") || label.ends_with("boundary") {
+            } else if label.ends_with("growth") || label.ends_with("boundary") || label.starts_with("growth-boundary") {
                 growth_runs += label.ends_with("growth") as u64;
             } else {
                 configs_done += 1;
@@ -379,6 +430,7 @@ pub fn run(check: &mut Check) {
     check.cov("configurations", json!(cfgs.len()));
     check.cov("growth_runs_crossing_extension_steps", json!(growth_runs));
     check.cov("free_list_boundary_runs", json!(flb_runs));
+    check.cov("growth_boundary_sweep_runs", json!(gsweep_runs));
     check.cov("commits", json!(commits));
     check.cov("odd_page_sizes", json!(odd_outcomes));
     check.cov("exhaustive", json!(true));
